@@ -87,7 +87,7 @@ def dy(rng, lo, hi, bits):
 
 
 def gen_volt(rng, tier, out):
-    n = {'quick': 1, 'thorough': 6}[tier]
+    n = {'quick': 1, 'thorough': 12}[tier]
     # boundary family: amp = M * 2^k  -> scale is a power of two, exact half steps are representable
     for res in ([1, 2, 3, 4, 8, 14, 16] if tier == 'quick' else range(1, 17)):
         M = 2 ** res - 1
@@ -131,6 +131,13 @@ def gen_volt(rng, tier, out):
         amp = F(M)
         vs = [F(-M) + F(i, 4) for i in range(0, 8 * M + 1)]
         out.append({'kind': 'volt', 'amp': fs(amp), 'off': '0', 'res': res, 'vs': [fs(v) for v in vs]})
+    if tier == 'thorough':      # every quarter step of every resolution <= 6 (amp = M: the scaled voltage is exact)
+        for res in range(1, 7):
+            M = 2 ** res - 1
+            for off in (F(0), F(3, 4)):
+                vs = [off - M + F(i, 2) for i in range(0, 4 * M + 1)]
+                for i in range(0, len(vs), 40):
+                    out.append({'kind': 'volt', 'amp': fs(M), 'off': fs(off), 'res': res, 'vs': [fs(v) for v in vs[i:i + 41]]})
     for res in (0, -1):                                                       # malformed resolution
         out.append({'kind': 'volt', 'amp': '1', 'off': '0', 'res': res, 'vs': ['0', '1/2']})
 
@@ -150,7 +157,7 @@ def gen_mono(rng, tier, out):
 
 
 def gen_win(rng, tier, out):
-    n = {'quick': 1, 'thorough': 6}[tier]
+    n = {'quick': 1, 'thorough': 12}[tier]
     fixed = [
         (1, []), (1, [(0, 0)]), (1, [('1/2', 1), ('3/2', 1), ('5/2', 1)]), (2, [('1/4', '1/2'), ('3/4', '3/4')]),
         (1, [(3, 1), (1, 1), (2, 1)]), (1, [(1, 2), (1, 3)]), (1, [(1, 3), (1, 2)]), (1, [(1, 1), (1, 2), (0, 3), (0, 4)]),
@@ -159,6 +166,15 @@ def gen_win(rng, tier, out):
     ]
     for sr, ws in fixed:
         out.append({'kind': 'win', 'sr': fs(sr), 'ws': [[fs(b), fs(l)] for b, l in ws]})
+    if tier == 'thorough':      # exhaustive: <= 3 windows (and a sample of 4) over a half-step universe, rates 1 and 2
+        uni = [(F(b, 2), F(l, 4)) for b in range(0, 4) for l in (0, 2, 3, 4)]
+        for sr in (F(1), F(2)):
+            for k in (1, 2, 3):
+                for ws in itertools.product(uni, repeat=k):
+                    out.append({'kind': 'win', 'sr': fs(sr), 'ws': [[fs(b), fs(l)] for b, l in ws]})
+            for _ in range(2000):
+                ws = [rng.choice(uni) for _ in range(rng.choice([4, 5, 6, 8]))]
+                out.append({'kind': 'win', 'sr': fs(sr), 'ws': [[fs(b), fs(l)] for b, l in ws]})
     for _ in range(150 * n):
         sr = rng.choice([F(1), F(1), F(2), F(1, 2), F(4), F(3, 2), F(5, 4)])
         m = rng.randint(1, 6)
@@ -199,12 +215,12 @@ def shrink_universe(max_n, top):
 
 
 def gen_shrink(rng, tier, out):
-    n = {'quick': 1, 'thorough': 6}[tier]
+    n = {'quick': 1, 'thorough': 12}[tier]
     if tier == 'quick':
         allw = list(shrink_universe(3, 3))
         pick = [w for w in allw if len(w) <= 2] + rng.sample([w for w in allw if len(w) == 3], 250)
     else:
-        pick = list(shrink_universe(3, 4)) + rng.sample(list(shrink_universe(4, 3)), 4000)
+        pick = list(shrink_universe(3, 4)) + [w for w in shrink_universe(4, 3) if len(w) == 4]
     for ws in pick:
         out.append({'kind': 'shrink', 'dtype': rng.choice(['int64', 'uint64']), 'ws': [list(w) for w in ws]})
     for _ in range(150 * n):
@@ -222,7 +238,7 @@ def gen_shrink(rng, tier, out):
 
 
 def gen_avg(rng, tier, out):
-    n = {'quick': 1, 'thorough': 6}[tier]
+    n = {'quick': 1, 'thorough': 12}[tier]
     for _ in range(160 * n):
         ns = rng.randint(0, 9)
         r = rng.random()
@@ -270,7 +286,7 @@ def gen_nni(rng, tier, out):
 
 
 def gen_times(rng, tier, out):
-    n = {'quick': 1, 'thorough': 6}[tier]
+    n = {'quick': 1, 'thorough': 12}[tier]
     out.append({'kind': 'times', 'rate': '1', 'durs': []})
     for _ in range(60 * n):
         rate = F(2) ** rng.randint(-3, 3)
@@ -328,7 +344,7 @@ def gen_wf(rng, rate):
 
 
 def gen_sample(rng, tier, out):
-    n = {'quick': 1, 'thorough': 6}[tier]
+    n = {'quick': 1, 'thorough': 12}[tier]
     for i in range(140 * n):
         rate = F(2) ** rng.randint(-2, 2)
         nw = rng.choice([1, 1, 2, 3, 4])
@@ -999,11 +1015,21 @@ def search_failing(ctx, broken):
 
 
 MANIFEST = {
-    'level_text': 'Proof (Coq, unbounded) about an executable model of the discretisation routines, tied to /repo by an '
-                  'exact correspondence check that calls both internal implementations of every routine and the public '
-                  'entry point on boundary-heavy generated inputs.',
-    'level_note': 'Trusted: Coq kernel, numpy elementwise float arithmetic on dyadic inputs (binary64 rounding is not '
-                  'modelled; theorems are over exact rationals), Waveform.get_sampled as the sampling function, harness.',
+    'level_text': 'Proof (Coq, unbounded, over exact rationals) about an executable model of the discretisation routines: DAC '
+                  'codes are monotone, map the range ends to 0 and 2^res-1, err by at most half a step, out-of-range input is '
+                  'rejected; window conversion sorts by begin, rounds begins half-to-even and floors lengths; shrinking keeps '
+                  'every end, moves begins only forward and leaves the windows disjoint; numpy and loop variants of '
+                  'voltage_to_uint16, is_monotonic, time_windows_to_samples and shrink_overlapping_windows are equal for all '
+                  'inputs; _average_windows_numpy is the mean over begin <= t < end on sorted time.  The two loop kernels '
+                  '_is_monotonic_numba and _shrink_overlapping_windows_numba are re-translated from /repo on every run and '
+                  're-proved equal to the model.  Partial: equality of the average_windows variants is refuted (known '
+                  'finding, nested windows) and its guarded form is only tested; the ProgramEntry sampling clause '
+                  '(flat-memory model = (T(sample)-offset)/amplitude at k/rate, markers != 0) is stated but only tested '
+                  '(model vs implementation and implementation vs formula on every run).',
+    'level_note': 'Trusted: Coq kernel, the translator and its C20 extension, numpy elementwise float arithmetic on dyadic '
+                  'inputs (binary64 rounding is not modelled), Waveform.get_sampled as the sampling function, harness.  Models '
+                  'are tied to /repo by an exact correspondence check that calls both internal implementations of every '
+                  'routine and the public entry point.',
     'technique': 'Coq proof over hand-written + AST-translated kernels, correspondence check (vm_compute) against both '
                  'numpy and loop variants',
     'design_ref': 'DESIGN.md §5 C20',
